@@ -227,8 +227,11 @@ func Power(ctx *expr.Context, input system.Collection, args ...expr.Expression) 
 		if err != nil {
 			return nil, err
 		}
-		// Powering ints
-		res := powInt32(number, exp)
+		// Powering ints; a result outside the Integer range is empty.
+		res, fits := powInt32(number, exp)
+		if !fits {
+			return system.Collection{}, nil
+		}
 		return system.Collection{system.Integer(res)}, nil
 	}
 	// Input type conversion to float64
@@ -357,20 +360,31 @@ func logToBase(number, base float64) float64 {
 	return math.Log(number) / math.Log(base)
 }
 
-// powInt32 returns the powering of a number to a given exponential.
-func powInt32(base, exp int32) int32 {
-	if exp == 0 {
-		return 1
+// powInt32 returns base raised to the exponent, and whether the result fits an
+// int32. A negative exponent yields 0, as before.
+func powInt32(base, exp int32) (int32, bool) {
+	switch {
+	case exp < 0:
+		return 0, true
+	case exp == 0 || base == 1:
+		return 1, true
+	case base == 0:
+		return 0, true
+	case base == -1:
+		if exp%2 == 0 {
+			return 1, true
+		}
+		return -1, true
 	}
-	if exp < 0 {
-		return 0
+	// |base| >= 2: at most 31 iterations before the result leaves the range.
+	result := int64(1)
+	for i := int32(0); i < exp; i++ {
+		result *= int64(base)
+		if result > math.MaxInt32 || result < math.MinInt32 {
+			return 0, false
+		}
 	}
-
-	result := base
-	for i := int32(2); i <= exp; i++ {
-		result *= base
-	}
-	return result
+	return int32(result), true
 }
 
 // singleNumber returns the single input item as a System value; FHIR integer,
